@@ -143,6 +143,6 @@ pub fn run(tier: Tier, seed: u64) -> i32 {
     }
     s.assume("lightning-invoice (third party) is the reference for signature validity, payment hash, amount and route hints");
     s.regress::<Scenario, _>("world", case);
-    s.search("world-single-htlc", "world", tier.pick(1500, 15000), c10_strategy, case);
+    s.search("world-single-htlc", "world", tier.pick(1500, 40000), c10_strategy, case);
     s.finish()
 }
